@@ -3,10 +3,12 @@
     notations fully expanded) and coq/K/Exec.v (rewrite_event, from_proof_hints, from_kore_definition's
     rule loading, get_proof_hints).  Proofs: K/KoreProofs.v, K/ExecProofs.v.  Only statements here. *)
 From Coq Require Import String Ascii NArith List Bool.
-From Pi2 Require Import K.Kore K.Exec K.KoreProofs K.ExecProofs K.Accept.
+From Pi2 Require Import ML.Syntax ML.Subst ML.Machine PTerm.Model.
+From Pi2 Require Import K.Kore K.Exec K.KoreProofs K.ExecProofs K.Accept K.Bridge.
 Import ListNotations.
 Open Scope string_scope.
 Open Scope list_scope.
+Open Scope nat_scope.
 
 (** ** 1. The conversion scope: equal variables |-> equal metavariables, distinct |-> distinct.
     For EVERY scope the conversion starts from (hence for all scopes reachable by conversion):
@@ -262,6 +264,57 @@ Proof.
   split.
   - vm_compute. repeat constructor; simpl; tauto.
   - vm_compute. eexists. split; [left; reflexivity | discriminate].
+Qed.
+
+(** ** 4b. The remaining partial closed: checker acceptance of the serialised module.
+    [to_pterm sym pre m] (K/Bridge.v) is the module as a proof-term module of PTerm/Model.v: patterns
+    encoded by any symbol table [sym], axioms = [pre] (the axioms of the imported sub-modules, published
+    first in the gamma phase; any checker-well-formed list) followed by the module's own axioms (rewrite
+    rules and functional assumptions), claims = the instantiated rules, proofs =
+    [PDynInst (PLoadAxiom rule) delta] = [dynamic_inst(load_axiom(rule), substitution)].
+    [serialize memo] is the model of [ProofExp.serialize] ([memo = None]: optimize=False; [Some _]:
+    the memoiser), [verify] the checker model [ML/Machine.v]; C02_module_accepted supplies the
+    compiler-correctness half, this development proves [module_ok].
+    Hypotheses that remain: (i) [hint_wf]: every substitution is a dict (no duplicate key), and rule
+    patterns and substituted values contain no [Mu] other than the notation bottom -- discharged, in
+    [C20_generated_module_accepted], for everything the pipeline builds from Kore objects;
+    (ii) [serialize ... = Some _], i.e. the generator itself does not raise while serialising (ids and
+    symbol numbers fit a byte, ...) -- the same hypothesis as in C02, not discharged in general
+    (satisfiable: the Example below computes a serialisation and the checker's final state). *)
+Theorem C20_module_accepted : forall (sym:string -> N) pre G S hs m memo g c p,
+  from_hints G S hs = Some m ->
+  Forall hint_wf hs ->
+  forallb pat_wf pre = true ->
+  serialize memo (to_pterm sym pre m) = Some (g, c, p) ->
+  exists st, verify Pi2.ML.Subst.guards_sound g c p = Some st.
+Proof. exact module_accepted_thm. Qed.
+Print Assumptions C20_module_accepted.
+
+Theorem C20_generated_module_accepted : forall (sym:string -> N) pre G S axs init items m memo g c p,
+  gen_module G S axs init items = Some m ->
+  forallb pat_wf pre = true ->
+  serialize memo (to_pterm sym pre m) = Some (g, c, p) ->
+  exists st, verify Pi2.ML.Subst.guards_sound g c p = Some st.
+Proof. exact generated_module_accepted_thm. Qed.
+Print Assumptions C20_generated_module_accepted.
+
+(** an injective symbol table and the Definedness axiom [ceil(x0)] as the imported part *)
+Fixpoint str_code (s:string) : N :=
+  match s with EmptyString => 0%N | String a r => (N_of_ascii a + 1 + 257 * str_code r)%N end.
+Definition pre1 : list pat := [App (Sym (str_code sym_defined)) (EVar 0)].
+
+Example C20_module_accepted_nonvacuous :
+  exists m g c p st,
+    gen_module Pi2.K.Exec.guards_sound Sig1 axs1 (kf ka) good_items = Some m
+    /\ List.length (Pi2.K.Exec.m_claims m) = 2
+    /\ serialize None (to_pterm str_code pre1 m) = Some (g, c, p)
+    /\ verify Pi2.ML.Subst.guards_sound g c p = Some st
+    /\ (exists g' c' p', serialize (Some []) (to_pterm str_code pre1 m) = Some (g', c', p')).
+Proof.
+  eexists. eexists. eexists. eexists. eexists.
+  split; [vm_compute; reflexivity|]. split; [reflexivity|].
+  split; [vm_compute; reflexivity|]. split; [vm_compute; reflexivity|].
+  eexists. eexists. eexists. vm_compute. reflexivity.
 Qed.
 
 (** ** 5. End to end, from parsed Kore objects and LLVM-style hint events: the claims of a generated
